@@ -155,7 +155,7 @@ class LThread:
         except StopIteration as e:
             self.done = True
             self.result = e.value
-        except Exception as e:  # noqa
+        except (Exception, StepBound) as e:  # noqa  (StepBound: a busy loop of this thread; it is an outcome, not an engine signal)
             self.done = True
             self.exc = e
         finally:
@@ -279,7 +279,7 @@ def run_sync(coro, world, me=None):
                 tok = coro.send(None)
             except StopIteration as e:
                 return ('ok', e.value)
-            except Exception as e:  # noqa
+            except (Exception, StepBound) as e:  # noqa
                 return ('exc', e)
             k = tok.kind
             if k in ('sp', 'yield'):
